@@ -77,7 +77,10 @@ def unparse(e, rng, parent=0, noise=0.15, right=False):
         a = unparse(e[1], rng, p, noise)
         b = unparse(e[2], rng, p, noise, right=True)
         sp = rng.choice(["", " ", " ", "  "])
-        res = a + sp + k + sp + b
+        sp2 = sp
+        if k == "^" and b.lstrip().startswith("~") and not sp2:
+            sp2 = " "          # `a^~b` would be lexed as the xnor operator `^~`
+        res = a + sp + k + sp2 + b
         need = parent > p or (right and parent == p)
     if need or rng.random() < noise:
         return "(" + res + ")"
@@ -131,7 +134,8 @@ def rand_program(rng, style="mixed", pool="plain", n_in=None, n_items=None, bb=0
             break
         out = rest.pop()
         r = rng.random()
-        if bb and r < bb and len(rest) >= 1:
+        n_pins = sum(len(t2["ins"]) + len(t2["outs"]) for it2 in items if it2["k"] == "bb" for t2 in bbtypes if t2["type"] == it2["type"])
+        if bb and r < bb and len(rest) >= 1 and n_in + n_pins + 4 <= 11:
             t = {"type": "ff", "ins": ["CK", "D"], "outs": ["Q", "QN"]} if rng.random() < 0.5 else {"type": "cell", "ins": ["A"], "outs": ["Y"]}
             if t not in bbtypes:
                 bbtypes.append(t)
